@@ -65,5 +65,8 @@ pub(crate) fn run(id: &str, opts: &Opts) -> Option<i32> {
         eprintln!("worker processes died: machinery failure, no verdict");
         return Some(2);
     }
+    if let Some(file) = &opts.replay {
+        return Some(report.finish_replay(file));
+    }
     Some(report.finish())
 }
